@@ -61,32 +61,22 @@ fn reference(sel: u8, settings_seen: bool) -> Option<Result<u64, ()>> {
     }
 }
 
-// @h props=C12,C13 tier=quick t=3000 mem=20 sub=remote-settings-run
-// @fn wtransport/src/driver/streams/settings.rs RemoteSettingsStream::{run,read_frame,set_stream} (re-hosted); wtransport-proto/src/settings.rs Settings::with_frame (mirror)
-// @bound all sequences of 3 control-stream events over an 11-symbol alphabet {SETTINGS ok, SETTINGS empty, SETTINGS with reserved id, GREASE, DATA, HEADERS, clean FIN, FIN inside a frame, reset, connection lost, H3 error from the reader}; the script ends with connection loss
-// @oracle reference automaton from RFC 9114 §6.2.1/§7.2.4: first frame not SETTINGS => H3_MISSING_SETTINGS; malformed SETTINGS => its code; after SETTINGS only GREASE is tolerated, anything else (incl. a second SETTINGS) => H3_FRAME_UNEXPECTED; FIN/reset of the control stream => H3_CLOSED_CRITICAL_STREAM; connection lost => NotConnected
-// @assume scripted StreamUniRemoteH3 model; tokio::sync::watch model (shared cell); mproto mirror as wtransport-proto
-// @outside what Worker::run_impl does with the returned error besides closing with its code (d_worker_close_code)
-#[kani::proof]
-#[kani::unwind(8)]
-fn d_remote_settings_run() {
-    let s: [u8; 3] = kani::any();
-    kani::assume(s[0] < 11 && s[1] < 11 && s[2] < 11);
+fn remote_run(events: [Ev; 3], sels: [u8; 3], n: usize) {
     let mut rs = RemoteSettingsStream::empty();
-    rs.set_stream(StreamUniRemoteH3 { script: Script { events: [ev(s[0]), ev(s[1]), ev(s[2])], n: 3, reads: 0 } });
+    rs.set_stream(StreamUniRemoteH3 { script: Script { events, n, reads: 0 } });
     let out = poll_once(rs.run()).expect("run() pending although the scripted stream never is");
     // reference run
     let mut seen = false;
     let mut expect: Result<u64, ()> = Err(()); // script exhausted => connection lost
     let mut i = 0;
-    while i < 3 {
-        match reference(s[i], seen) {
+    while i < n {
+        match reference(sels[i], seen) {
             Some(v) => {
                 expect = v;
                 break;
             }
             None => {
-                if s[i] == 0 || s[i] == 1 {
+                if sels[i] == 0 || sels[i] == 1 {
                     seen = true;
                 }
             }
@@ -97,16 +87,44 @@ fn d_remote_settings_run() {
         (DriverError::Proto(e), Ok(code)) => {
             assert!(e.to_code().into_inner() == code, "control stream violation answered with a wrong error code");
             kani::cover!(code == 0x10a, "missing settings");
-            kani::cover!(code == 0x105 && i == 1 && s[1] == 0, "second SETTINGS refused");
+            kani::cover!(code == 0x105 && i == 1 && sels[1] == 0, "second SETTINGS refused");
             kani::cover!(code == 0x104 && i == 2, "critical stream closed after SETTINGS and GREASE");
             kani::cover!(code == 0x109, "reserved setting");
         }
         (DriverError::NotConnected, Err(())) => {
-            kani::cover!(i == 3 && s[1] == 3 && s[2] == 3, "SETTINGS, GREASE, GREASE accepted until the connection goes away");
+            kani::cover!(n == 3 && i == 3 && sels[1] == 3 && sels[2] == 3, "SETTINGS, GREASE, GREASE accepted until the connection goes away");
         }
         _ => assert!(false, "reaction to the control-stream sequence differs from RFC 9114"),
     }
     core::mem::forget(out);
+}
+
+// @h props=C12,C13 tier=quick t=3000 mem=20 sub=remote-settings-first covers=any
+// @fn wtransport/src/driver/streams/settings.rs RemoteSettingsStream::{run,read_frame,set_stream} (re-hosted); wtransport-proto/src/settings.rs Settings::with_frame (mirror)
+// @bound the first control-stream event: every symbol of the 11-symbol alphabet {SETTINGS ok, SETTINGS empty, SETTINGS with reserved id, GREASE, DATA, HEADERS, clean FIN, FIN inside a frame, reset, connection lost, H3 error from the reader}, then the connection goes away
+// @oracle RFC 9114 §6.2.1/§7.2.4: first frame not SETTINGS (incl. GREASE first) => H3_MISSING_SETTINGS; malformed SETTINGS => its code; FIN/reset => H3_CLOSED_CRITICAL_STREAM; connection lost => NotConnected; valid SETTINGS accepted
+// @assume scripted StreamUniRemoteH3 model; tokio::sync::watch model (shared cell); mproto mirror as wtransport-proto
+#[kani::proof]
+#[kani::unwind(8)]
+fn d_remote_settings_first() {
+    let s0: u8 = kani::any();
+    kani::assume(s0 < 11);
+    remote_run([ev(s0), ev(9), ev(9)], [s0, 9, 9], 1);
+}
+
+// @h props=C12,C13 tier=quick t=3000 mem=20 sub=remote-settings-after covers=any
+// @fn wtransport/src/driver/streams/settings.rs RemoteSettingsStream::{run,read_frame}
+// @bound a valid SETTINGS frame followed by every sequence of two events over the 11-symbol alphabet (121 sequences), then the connection goes away
+// @oracle after SETTINGS only GREASE is tolerated (any number); a second SETTINGS, DATA, HEADERS => H3_FRAME_UNEXPECTED; FIN/reset => H3_CLOSED_CRITICAL_STREAM; connection lost => NotConnected
+// @assume as d_remote_settings_first
+// @outside what Worker::run_impl does with the returned error besides closing with its code (d_worker_close_code)
+#[kani::proof]
+#[kani::unwind(8)]
+fn d_remote_settings_after() {
+    let s1: u8 = kani::any();
+    let s2: u8 = kani::any();
+    kani::assume(s1 < 11 && s2 < 11);
+    remote_run([ev(0), ev(s1), ev(s2)], [0, s1, s2], 3);
 }
 
 // @h props=C16,C12 tier=quick t=3000 mem=20 sub=local-settings
@@ -171,7 +189,7 @@ fn d_local_settings() {
                 _ => assert!(false, "reserved / unknown setting emitted"),
             }
         }
-        assert!(seen[0] && seen[2] && seen[3] && seen[4] && seen[5] && seen[6] && !seen[1], "advertised settings are not exactly {QPACK cap 0, blocked 0, extended CONNECT, H3 datagram, WebTransport, max sessions 1}");
+        assert!(seen[0] && seen[2] && seen[3] && seen[4] && seen[5] && seen[6] && !seen[1], "advertised settings are not exactly: QPACK cap 0, blocked 0, extended CONNECT, H3 datagram, WebTransport, max sessions 1");
         kani::cover!(true, "settings emitted");
     } else {
         assert!(st.nwritten == 0);
@@ -181,7 +199,7 @@ fn d_local_settings() {
     core::mem::forget(ls);
 }
 
-// @h props=C12,C16 tier=quick t=300 expect=fail sub=twin
+// @h props=C12,C16 tier=quick t=1500 expect=fail sub=twin
 // @fn wtransport/src/driver/streams/settings.rs RemoteSettingsStream::run
 // @bound twin: claims a leading DATA frame is tolerated; must be refuted
 #[kani::proof]
